@@ -181,8 +181,10 @@ def run_property(prop, tier, only_rule=None, quiet=False):
     except (AnalysisBroken, PathBoundExceeded) as e:
         msg = "ANALYSIS-BROKEN property=%s: %s" % (prop, e)
         print(msg)
-        write_evidence(prop, tier, level, ctx, time.time() - t0, len(ctx.violations), mod, broken=str(e))
-        return 2
+        if not ctx.violations:
+            write_evidence(prop, tier, level, ctx, time.time() - t0, len(ctx.violations), mod, broken=str(e))
+            return 2
+        # violations found before the analysis broke are still reported (exit 1)
     known = load_known()
     viodir = os.path.join(VERIF, "evidence", "violations")
     if os.environ.get("VERIF_NO_EVIDENCE"):
